@@ -82,7 +82,75 @@ func isStringType(t types.Type) bool {
 	return ok && b.Kind() == types.String
 }
 
+// symSprintf renders formats whose only symbolic arguments are strings under %s / %v: the result
+// is a string with symbolic bytes rather than an opaque value.
+func (fr *frame) symSprintf(format string, args []value) (value, bool) {
+	out := symstr{}
+	ai := 0
+	for i := 0; i < len(format); i++ {
+		c := format[i]
+		if c != '%' {
+			out = append(out, c)
+			continue
+		}
+		i++
+		if i >= len(format) {
+			return nil, false
+		}
+		v := format[i]
+		if v == '%' {
+			out = append(out, byte('%'))
+			continue
+		}
+		if ai >= len(args) {
+			return nil, false
+		}
+		a := args[ai]
+		ai++
+		if ia, ok := a.(iface); ok {
+			a = ia.v
+			if ia.t == nil {
+				return nil, false
+			}
+		}
+		switch x := a.(type) {
+		case symstr:
+			if v != 's' && v != 'v' {
+				return nil, false
+			}
+			out = append(out, x...)
+		case string:
+			if v != 's' && v != 'v' {
+				return nil, false
+			}
+			out = append(out, toSymstr(x)...)
+		case int:
+			if v != 'd' && v != 'v' {
+				return nil, false
+			}
+			out = append(out, toSymstr(fmt.Sprint(x))...)
+		default:
+			return nil, false
+		}
+	}
+	if ai != len(args) {
+		return nil, false
+	}
+	return normStr(out), true
+}
+
 func (fr *frame) sprintf(format string, args []value) value {
+	for _, a := range args {
+		if ia, ok := a.(iface); ok {
+			a = ia.v
+		}
+		if _, ok := a.(symstr); ok {
+			if r, ok := fr.symSprintf(format, args); ok {
+				return r
+			}
+			break
+		}
+	}
 	var na []interface{}
 	saw := false
 	for _, a := range args {
@@ -197,5 +265,22 @@ func init() {
 	externals["github.com/yuin/gopher-lua.newAllocator"] = func(fr *frame, args []value) value {
 		cell := zero(mustDeref(fr.fn.Signature.Results().At(0).Type()))
 		return &cell
+	}
+}
+
+func init() {
+	// os.Stat: documented-contract stub "the file does not exist" (the checks never create files);
+	// the message is the one *PathError renders natively.
+	externals["os.Stat"] = func(fr *frame, args []value) value {
+		name, ok := args[0].(string)
+		if !ok {
+			name = "<symbolic>"
+		}
+		errorsPkg := fr.i.prog.ImportedPackage("errors")
+		e := call(fr.i, fr, token.NoPos, errorsPkg.Func("New"), []value{"stat " + name + ": no such file or directory"})
+		if explorer != nil && explorer.stubsUsed != nil {
+			explorer.stubsUsed["os.Stat (always: no such file)"] = true
+		}
+		return tuple{iface{}, e}
 	}
 }
